@@ -11,6 +11,10 @@ type PreludeFn struct {
 	Ret  string
 	SMT  string
 	Deps []string // other prelude functions / sel functions used in the axioms
+	// derived streams: declaration and defining axiom kept as a term, so that it can be rendered with
+	// nonlinear operations abstracted (solve.go abstractNL)
+	Decl string
+	Ax   *Term
 }
 
 var prelude = map[string]*PreludeFn{}
@@ -170,5 +174,18 @@ func init() {
 (declare-fun devsq (Int Int Int Real) Real)
 (assert (forall ((s Int) (lo Int) (hi Int) (mu Real)) (! (=> (<= hi lo) (= (devsq s lo hi mu) 0.0)) :pattern ((devsq s lo hi mu)))))
 (assert (forall ((s Int) (lo Int) (hi Int) (mu Real)) (! (=> (> hi lo) (= (devsq s lo hi mu) (+ (devsq s lo (- hi 1) mu) (* (- (sel_Real s (- hi 1)) mu) (- (sel_Real s (- hi 1)) mu))))) :pattern ((devsq s lo hi mu)))))
+`})
+	// wmaW(s,lo,n,P): sum over i < n of s[lo+i] * (i+1) / P  (the documented WMA numerator terms)
+	addPrelude(&PreludeFn{Name: "wmaW", Args: []string{"stream", "int", "int", "int"}, Ret: "real", Deps: []string{"sel_Real"}, SMT: `
+(declare-fun wmaW (Int Int Int Int) Real)
+(assert (forall ((s Int) (lo Int) (n Int) (P Int)) (! (=> (<= n 0) (= (wmaW s lo n P) 0.0)) :pattern ((wmaW s lo n P)))))
+(assert (forall ((s Int) (lo Int) (n Int) (P Int)) (! (=> (> n 0) (= (wmaW s lo n P) (+ (wmaW s lo (- n 1) P) (/ (* (sel_Real s (+ lo (- n 1))) (to_real n)) (to_real P))))) :pattern ((wmaW s lo n P)))))
+`})
+	// nviR(c,v,init,k): Negative Volume Index after bar k+1: unchanged when the volume rose, otherwise moved by the
+	// closing change ratio; nviR(.., -1) = init
+	addPrelude(&PreludeFn{Name: "nviR", Args: []string{"stream", "stream", "real", "int"}, Ret: "real", Deps: []string{"sel_Real"}, SMT: `
+(declare-fun nviR (Int Int Real Int) Real)
+(assert (forall ((c Int) (v Int) (i0 Real) (k Int)) (! (=> (< k 0) (= (nviR c v i0 k) i0)) :pattern ((nviR c v i0 k)))))
+(assert (forall ((c Int) (v Int) (i0 Real) (k Int)) (! (=> (>= k 0) (= (nviR c v i0 k) (+ (nviR c v i0 (- k 1)) (ite (<= (- (sel_Real v (+ k 1)) (sel_Real v k)) 0.0) (* (/ (- (sel_Real c (+ k 1)) (sel_Real c k)) (sel_Real c k)) (nviR c v i0 (- k 1))) 0.0)))) :pattern ((nviR c v i0 k)))))
 `})
 }
